@@ -31,7 +31,9 @@ Inductive rv :=
 | VSrc                                   (* the upstream observable: actual_subscribe(o) hands o over *)
 | VPanic                                 (* the result of a usize subtraction that underflows *)
 | VEnum (c : string) (args : list rv)    (* a variant of one of the crate's enums: ZipItem::ItemA(v) *)
-| VRef (path : list string).             (* `let inner = self.rc_deref_mut()`: a name for a place inside self *)
+| VRef (path : list string)              (* `let inner = self.rc_deref_mut()`: a name for a place inside self *)
+| VMark (e : ev).                        (* a user callback / an upstream subscription whose call is an observation: calling it
+                                            (f(), or .unsubscribe()) appends e to the output *)
 
 Definition env := list (string * rv).
 
@@ -403,6 +405,8 @@ Definition builtin (m : string) (recv : rv) (args : list rv) : option (rv * rv *
       if String.eqb m "rc_deref_mut" || String.eqb m "rc_deref" || String.eqb m "clone" then
         match args with [] => same recv | _ => None end
       else None
+  | VMark e0 =>
+      if String.eqb m "unsubscribe" then match args with [] => Some (VUnit, recv, [e0]) | _ => None end else None
   | VSrc =>
       if String.eqb m "actual_subscribe" then match args with [o] => Some (o, recv, []) | _ => None end else None
   | VBool _ =>
@@ -608,6 +612,8 @@ Fixpoint eval_x (fuel : nat) (s : st) (e : rx) {struct fuel} : option (st * rv) 
           | _ => None end
         else
           match lookup p (flocals fr) with
+          | Some (VMark e0) =>                         (* a callback whose call is observed: func() *)
+              match args with [] => Some ((fr, out ++ [e0]), VUnit) | _ => None end
           | Some clo =>                                (* a closure held in a local: binary_op(a, b) *)
               match eval_args f s args with
               | Some (s', vs) => match apply_closure clo vs with Some r => Some (s', r) | None => None end
